@@ -70,7 +70,7 @@ def aliases_of(scope: Scope, roots: Iterable[str], include_elements: bool = True
 
 
 def _iter_sources(it: ast.AST) -> List[ast.AST]:
-    if isinstance(it, ast.Call) and txt(it.func) in ("enumerate", "zip", "reversed", "iter") and it.args:
+    if isinstance(it, ast.Call) and it.args and txt(it.func).split(".")[-1] in ("enumerate", "zip", "reversed", "iter", "grouper", "islice", "batched", "chunked", "partition"):
         out = []
         for a in it.args:
             out += _iter_sources(a)
@@ -356,4 +356,7 @@ def names_closure(scope: Scope, expr: ast.AST, stop=()) -> Set[str]:
                     continue
                 for st in scope.assigns.get(n.id, []):
                     work.append(st.value)
+                for st in scope.other_binds.get(n.id, []):
+                    if isinstance(st, (ast.Assign, ast.AnnAssign)) and st.value is not None:
+                        work.append(st.value)  # tuple-unpacking assignment
     return out
